@@ -107,17 +107,18 @@ def run_pack(pid: str, tier: str, check: Callable[[Ctx], None], *, proj: Optiona
              quiet: bool = False) -> Dict[str, Any]:
     """Run one rule pack; returns a result dict (no I/O besides reading the repo)."""
     t0 = time.time()
-    res: Dict[str, Any] = {'pid': pid, 'tier': tier, 'error': None}
+    res: Dict[str, Any] = {'pid': pid, 'tier': tier, 'error': None, 'floor_error': None}
     try:
         proj = proj or Project()
         ctx = Ctx(proj, pid, tier)
         check(ctx)
+        floor_errors = []
         for rid, floor in ctx.floors.items():
             n = sum(1 for o in ctx.obligations if o.rule == rid)
-            nfail = sum(1 for o in ctx.obligations if o.rule == rid and o.status == 'fail')
-            if n < floor and nfail == 0:
-                raise AnalysisError(f'rule {rid}: {n} instances analysed, floor is {floor} '
+            if n < floor:
+                floor_errors.append(f'rule {rid}: {n} instances analysed, floor is {floor} '
                                     f'(the rule no longer binds to the code it was confirmed on)')
+        res['floor_error'] = '; '.join(floor_errors) or None
         res['ctx'] = ctx
     except AnalysisError as e:
         res['error'] = str(e)
